@@ -3,6 +3,7 @@ package main
 import (
 	"fmt"
 	"github.com/pip-services3-gox/pip-services3-expressions-gox/calculator/variables"
+	"strconv"
 	"strings"
 
 	"github.com/pip-services3-gox/pip-services3-expressions-gox/calculator"
@@ -184,61 +185,61 @@ func execC03(seg []Ev) []Ev {
 			// a seeded walk over the public calls of several calculators and templates that are alive together: setting, evaluating,
 			// changing variables and functions, clearing.  Every call returns normally; the last evaluating call is classified.
 			e["kind"] = "valerr"
-			seed := int64(toInt(in["lseed"]))
-			e["lseed"] = int(seed)
+			var script []string
+			for _, x := range toList(in["script"]) {
+				script = append(script, toStr(x))
+			}
+			e["script"] = script
 			var res *variants.Variant
 			var err error
 			trail := ""
 			oc, d := guarded(func() {
-				r := newRand(seed)
 				calcs := []*calculator.ExpressionCalculator{calculator.NewExpressionCalculator(), calculator.NewExpressionCalculator(), calculator.NewExpressionCalculator()}
 				tmpls := []*mustache.MustacheTemplate{mustache.NewMustacheTemplate(), mustache.NewMustacheTemplate()}
-				exprs := []string{"a + b", "b * 2", "Max(a, 3) + Nope(1)", "Twice(a)", "a[1]", "1 / 0", "(a", "Rnd() < 2", "x y", "'s' + a", "Min(1, 2)", ""}
-				names := []string{"a", "b", "A", "x", "Rnd", "Max", "min", "Twice", "nope"}
 				res, err = variants.VariantFromInteger(0), nil
-				for step := 0; step < 14; step++ {
-					c := calcs[r.Intn(len(calcs))]
-					t := tmpls[r.Intn(len(tmpls))]
-					nm := names[r.Intn(len(names))]
-					k := r.Intn(17)
-					trail += fmt.Sprint(k, ",")
-					switch k {
-					case 0, 1, 2:
-						c.SetExpression(exprs[r.Intn(len(exprs))])
-					case 3, 4, 5:
+				for _, st := range script {
+					// a step is "<instance>|<call>|<argument>"
+					parts := strings.SplitN(st, "|", 3)
+					idx, _ := strconv.Atoi(parts[0])
+					c, t, arg := calcs[idx%len(calcs)], tmpls[idx%len(tmpls)], parts[2]
+					trail = st
+					switch parts[1] {
+					case "set":
+						c.SetExpression(arg)
+					case "eval":
 						res, err = c.Evaluate()
-					case 6:
-						c.DefaultVariables().RemoveByName(nm)
-					case 7:
-						c.DefaultVariables().Add(variables.NewVariable(nm, variants.VariantFromInteger(r.Intn(5))))
-					case 8:
-						c.DefaultFunctions().RemoveByName(nm)
-					case 9:
-						c.DefaultFunctions().Add(functions.NewDelegatedFunction("Twice", func(p []*variants.Variant, o variants.IVariantOperations) (*variants.Variant, error) {
+					case "evalvars":
+						res, err = c.EvaluateUsingVariables(c05vars())
+					case "rmvar":
+						c.DefaultVariables().RemoveByName(arg)
+					case "addvar":
+						c.DefaultVariables().Add(variables.NewVariable(arg, variants.VariantFromInteger(len(arg))))
+					case "rmfn":
+						c.DefaultFunctions().RemoveByName(arg)
+					case "addfn":
+						c.DefaultFunctions().Add(functions.NewDelegatedFunction(arg, func(p []*variants.Variant, o variants.IVariantOperations) (*variants.Variant, error) {
 							return o.Add(p[0], p[0])
 						}))
-					case 10:
+					case "clear":
 						c.Clear()
-					case 11:
-						c.SetAutoVariables(r.Intn(2) == 0)
-					case 12:
-						if v := c.DefaultVariables().FindByName(nm); v != nil {
+					case "auto":
+						c.SetAutoVariables(arg == "1")
+					case "setarr":
+						if v := c.DefaultVariables().FindByName(arg); v != nil {
 							v.SetValue(variants.VariantFromArray([]*variants.Variant{variants.VariantFromInteger(1), variants.VariantFromString("x")}))
 						}
-					case 13:
-						t.SetTemplate([]string{"Hi {{a}}", "{{#a}}x{{/a}}", "{{#a}}", "{{b}}{{^c}}n{{/c}}", ""}[r.Intn(5)])
-					case 14:
+					case "tset":
+						t.SetTemplate(arg)
+					case "teval":
 						t.Evaluate()
-					case 15:
+					case "tclear":
 						t.Clear()
-					default:
-						res, err = c.EvaluateUsingVariables(c05vars())
 					}
 				}
 			})
 			det = d
 			if oc != "ok" {
-				det = d + " after calls " + trail
+				det = d + " at step " + trail
 			}
 			e["outcome"] = valErr(oc, res != nil, err)
 		case "reenter":
@@ -335,8 +336,61 @@ func genC03(g *Gen) {
 			run("user-registered failing functions", Ev{"api": "userfunc", "kind2": how, "input": cps(x)})
 		}
 	}
-	for s := 1; s <= g.Pick(4000, 60000); s++ {
-		run("walks over the calls of several calculators and templates alive together", Ev{"api": "lifecycle", "lseed": s + 100000*int(g.Seed)})
+	lexprs := []string{"a + b", "b * 2", "Max(a, 3) + Nope(1)", "Twice(a)", "a[1]", "1 / 0", "(a", "Rnd() < 2", "x y", "'s' + a", "Min(1, 2)", "", "Nope(1)", "b"}
+	lnames := []string{"a", "b", "A", "x", "Rnd", "Max", "min", "Twice", "nope"}
+	ltmpl := []string{"Hi {{a}}", "{{#a}}x{{/a}}", "{{#a}}", "{{b}}{{^c}}n{{/c}}", ""}
+	lrun := func(gen string, steps ...string) {
+		run(gen, Ev{"api": "lifecycle", "script": anyL(steps)})
+	}
+	// directed: use, change a variable / function table (of the same or of another instance), use again
+	for _, e1 := range lexprs[:6] {
+		for _, e2 := range lexprs {
+			for _, nm := range lnames[:8] {
+				for _, chg := range []string{"rmvar", "rmfn", "addvar", "addfn"} {
+					if (len(e1)+len(e2)+len(nm))%3 != 0 && !g.Thorough() {
+						continue
+					}
+					lrun("use, change a table, use again", "0|set|"+e1, "0|eval|", "1|set|"+e2, "0|"+chg+"|"+nm, "0|set|"+e2, "0|eval|", "1|eval|", "2|set|"+e2, "2|eval|")
+					lrun("use, change a table, use again", "0|set|"+e1, "1|set|"+e1, "2|"+chg+"|"+nm, "0|eval|", "1|set|"+e2, "1|eval|", "0|"+chg+"|"+nm, "1|eval|")
+				}
+			}
+		}
+	}
+	for s := 1; s <= g.Pick(3000, 60000); s++ {
+		var steps []string
+		for k := 0; k < 14; k++ {
+			inst := fmt.Sprint(r.Intn(3))
+			nm := lnames[r.Intn(len(lnames))]
+			switch x := r.Intn(17); {
+			case x < 3:
+				steps = append(steps, inst+"|set|"+lexprs[r.Intn(len(lexprs))])
+			case x < 6:
+				steps = append(steps, inst+"|eval|")
+			case x == 6:
+				steps = append(steps, inst+"|rmvar|"+nm)
+			case x == 7:
+				steps = append(steps, inst+"|addvar|"+nm)
+			case x == 8:
+				steps = append(steps, inst+"|rmfn|"+nm)
+			case x == 9:
+				steps = append(steps, inst+"|addfn|Twice")
+			case x == 10:
+				steps = append(steps, inst+"|clear|")
+			case x == 11:
+				steps = append(steps, inst+"|auto|"+fmt.Sprint(r.Intn(2)))
+			case x == 12:
+				steps = append(steps, inst+"|setarr|"+nm)
+			case x == 13:
+				steps = append(steps, inst+"|tset|"+ltmpl[r.Intn(len(ltmpl))])
+			case x == 14:
+				steps = append(steps, inst+"|teval|")
+			case x == 15:
+				steps = append(steps, inst+"|tclear|")
+			default:
+				steps = append(steps, inst+"|evalvars|")
+			}
+		}
+		lrun("walks over the calls of several calculators and templates alive together", steps...)
 	}
 	for _, x := range []string{"Twice(20)", "1 + Twice(20)", "Max(3, Twice(20), 7)", "Array(5, Twice(3))[0]", "Twice(Twice(2)) * Twice(1)", "Twice('a')", "Twice()", "1 / (Twice(1) - 3) + Twice(2)"} {
 		run("a user function that evaluates on another calculator", Ev{"api": "reenter", "input": cps(x)})
